@@ -259,6 +259,9 @@ func (m *Machine) decide(cond *Term) bool {
 		}
 		return d.Branch
 	}
+	if m.DecideProfile != nil {
+		m.DecideProfile[m.curFn]++
+	}
 	mv := m.evalModel(cond) != 0
 	other := ncond
 	if !mv {
